@@ -64,7 +64,7 @@ theorem dumpTable_shape (rr : RowReader) (fn : Nat) (info : TableInfo) (attrs : 
           injection h with h; subst h
           exact ⟨rfl, rfl, rfl, rfl, rfl, rfl, fun _ => rfl⟩
         · rw [if_neg hd] at h
-          cases hrows : rr data (attrs.map fun a => ⟨a.name, a.typid, a.len, a.num, a.align⟩) true with
+          cases hrows : readTableRows rr data (attrs.map fun a => ⟨a.name, a.typid, a.len, a.num, a.align⟩) with
           | error e => simp [hrows] at h
           | ok rows =>
             simp only [hrows, ok_bind, pure_eq_ok] at h
